@@ -101,6 +101,7 @@ func NewGoMetricsMetricRegistry(
 func (r *MetricRegistry) Start() {
 	r.mu.Lock()
 	if !r.started {
+		r.started = true
 		r.wg.Add(1)
 		go func() {
 			defer r.wg.Done()
@@ -138,10 +139,11 @@ func (r *MetricRegistry) Stop() {
 		r.mu.Unlock()
 		return
 	}
-	r.stopper <- true
-	r.wg.Wait()
 	r.started = false
 	r.mu.Unlock()
+	// signal and wait without holding the mutex: the poller takes it on every tick
+	r.stopper <- true
+	r.wg.Wait()
 }
 
 // RegisterDistribution will register a distribution sample to this registry
